@@ -303,6 +303,11 @@ def run_unit(unit, tier, seed, known):
                 def setup2(I, scope, cls=cls, setup=setup):
                     scope.set('__cls__', cls)
                     setup(I, scope)
+                if method == '__bool__':
+                    # a verdict written in terms of oracles() is checked against the contract of oracles() (verified above), not against its body
+                    co = c_res(cls, 'oracles', nd)
+                    co.returns = lambda I, base, nd=nd: [I.fresh(BOOL, f'{base}_{k}') for k in range(nd)]
+                    w.add(co)
                 out.append(D(verify_function(w, c_res(cls, method, nd), setup=setup2)))
     return {'functions': out}
 
